@@ -25,6 +25,26 @@ pub struct FindCase {
     pub picks: Vec<u16>,
     /// huge stores: only six records (chosen by `picks`) are probed
     pub sample_only: bool,
+    /// pre-history of every probe: the same query is first run with this smaller limit, the
+    /// limit is then raised back to the world's (>= |store|) and the query repeated
+    pub narrow: Option<usize>,
+}
+
+/// The store under test; with `narrow` every probe is preceded by the same query at a smaller limit.
+pub struct Probe {
+    s: std::cell::RefCell<lucid_suggest_core::Store>,
+    full: usize,
+    narrow: Option<usize>,
+}
+
+fn search(p: &Probe, q: &str) -> Vec<(usize, String)> {
+    let mut s = p.s.borrow_mut();
+    if let Some(n) = p.narrow {
+        s.limit = n;
+        let _ = crate::gen::search(&s, q);
+        s.limit = p.full;
+    }
+    crate::gen::search(&s, q)
 }
 
 fn decode_find(src: &mut Source, which: Which) -> Box<dyn Case> {
@@ -117,7 +137,8 @@ fn decode_find(src: &mut Source, which: Which) -> Box<dyn Case> {
         w.limit = w.limit.max(w.recs.len());
     }
     let picks = (0..48).map(|_| src.below(1 << 16) as u16).collect();
-    Box::new(FindCase { which, w, picks, sample_only })
+    let narrow = if src.chance(1, 5) { Some(src.below(3).min(w.limit)) } else { None };
+    Box::new(FindCase { which, w, picks, sample_only, narrow })
 }
 
 pub fn decode_c03(src: &mut Source) -> Box<dyn Case> {
@@ -139,7 +160,7 @@ fn types_as(q: &str, l: &Lang, words: &[&[char]]) -> bool {
     tq.words.len() == words.len() && tq.words.iter().zip(words.iter()).all(|(w, e)| &tq.chars[w.slice.0..w.slice.1] == *e)
 }
 
-fn found(store: &Store, q: &str, id: usize) -> bool {
+fn found(store: &Probe, q: &str, id: usize) -> bool {
     search(store, q).iter().any(|h| h.0 == id)
 }
 
@@ -155,7 +176,7 @@ impl FindCase {
         self.picks[(a * 31 + b * 7 + c * 3) % self.picks.len()] as usize % n.max(1)
     }
 
-    fn check_c03(&self, ctx: &mut Ctx, store: &Store, l: &Lang, toks: &[TextOwn]) -> Result<(), Violation> {
+    fn check_c03(&self, ctx: &mut Ctx, store: &Probe, l: &Lang, toks: &[TextOwn]) -> Result<(), Violation> {
         let w = &self.w;
         let first_letters: Vec<char> = toks.iter().flat_map(|t| t.words.iter().map(move |wd| t.chars[wd.slice.0])).collect();
         for (ri, t) in toks.iter().enumerate() {
@@ -203,7 +224,7 @@ impl FindCase {
         Ok(())
     }
 
-    fn check_c04(&self, ctx: &mut Ctx, store: &Store, l: &Lang, toks: &[TextOwn]) -> Result<(), Violation> {
+    fn check_c04(&self, ctx: &mut Ctx, store: &Probe, l: &Lang, toks: &[TextOwn]) -> Result<(), Violation> {
         let w = &self.w;
         let letters: Vec<char> = plain_letters(w.lang).into_iter().filter(|&c| {
             let s = c.to_string();
@@ -289,7 +310,7 @@ impl FindCase {
         Ok(())
     }
 
-    fn check_c13(&self, ctx: &mut Ctx, store: &Store, l: &Lang, toks: &[TextOwn]) -> Result<(), Violation> {
+    fn check_c13(&self, ctx: &mut Ctx, store: &Probe, l: &Lang, toks: &[TextOwn]) -> Result<(), Violation> {
         let w = &self.w;
         for (ri, t) in toks.iter().enumerate() {
             if !self.sampled(ri, toks.len()) {
@@ -356,7 +377,7 @@ impl FindCase {
         Ok(())
     }
 
-    fn check_c14(&self, ctx: &mut Ctx, store: &Store, l: &Lang, toks: &[TextOwn]) -> Result<(), Violation> {
+    fn check_c14(&self, ctx: &mut Ctx, store: &Probe, l: &Lang, toks: &[TextOwn]) -> Result<(), Violation> {
         let w = &self.w;
         for (ri, t) in toks.iter().enumerate() {
             let id = w.recs[ri].0;
@@ -437,6 +458,7 @@ impl Case for FindCase {
             Which::C13 => "whole title; (first,last), (last,first) and up to 3 sampled ordered word pairs, both spellings",
             Which::C14 => "every split point of every word >= 3 chars; every adjacent pair with a 1-char gap run together",
         });
+        d["each_probe_first_run_at_limit"] = json!(self.narrow);
         d
     }
     fn key(&self) -> u64 {
@@ -444,7 +466,8 @@ impl Case for FindCase {
     }
     fn check(&self, ctx: &mut Ctx) -> Result<(), Violation> {
         let w = &self.w;
-        let store = w.store();
+        let store = Probe { s: std::cell::RefCell::new(w.store()), full: w.limit, narrow: self.narrow };
+        ctx.label_if(self.narrow.is_some(), "probe-repeated-after-limit-raise");
         let l = lang_of(w.lang);
         let toks: Vec<TextOwn> = w.recs.iter().map(|r| tokenize_record(&r.1, &l)).collect();
         debug_assert!(w.recs.len() <= w.limit);
